@@ -64,7 +64,8 @@ func vMergeCfg(prefix, idBase string, nDocs int, second bool, focus string) gCfg
 		// a composite field in every input: its locations name the (always present) field f, whose id differs
 		// between the inputs and the merged segment when the second input has the extra field
 		fields[0].always = true
-		fields = append(fields, gField{name: "c", terms: []string{"b"}, tv: true, maxLocs: 1, comp: true, locField: "f"})
+		// (two locations per hit: the first names the source field f, the second the composite field itself)
+		fields = append(fields, gField{name: "c", terms: []string{"b"}, tv: true, maxLocs: 2, fixLocs: true, comp: true, locFields: []string{"f", ""}, noTVOpt: true})
 		if second {
 			fields = append(fields, gField{name: "a0", terms: []string{"a"}, dv: true})
 		}
